@@ -56,6 +56,9 @@ func (h *harness) drive() {
 		h.finish()
 	}
 	h.simEnd = h.now()
+	if h.nSess >= 2 || h.local.reorgs > 0 {
+		h.x.Out.Nontrivial = true
+	}
 	h.teardown()
 }
 
@@ -339,6 +342,9 @@ func (h *harness) onRequest(p *preq) {
 			if s.last == nil {
 				sig = "first-not-child-of-ancestor"
 			}
+			if s.lied && sig != "not-child-of-previous-inside-chunk" {
+				sig += "-by-lying-peer"
+			}
 			h.failSoft("order", sig, fmt.Sprintf("session %d handed %s (parent %s) to the chain service after %s %s", s.seq, h.blockStr(b),
 				h.u.lbl(b.GetHeader().GetPrevBlockHash()), what, h.blockStr(prev)))
 		case b.BlockNo() > s.target:
@@ -399,6 +405,14 @@ func (h *harness) gen(r *simkit.Rng) *simkit.Step {
 	h.stepsLeft--
 	ans := h.answerable()
 	busy, _ := h.actorBusy()
+	if len(h.selfq) > 0 && len(ans) > 0 && h.flood == 0 && r.Chance(1, 14) {
+		h.flood = len(ans) // let everything outstanding arrive ahead of the syncer's message to itself
+	}
+	if h.flood > 0 && len(ans) > 0 {
+		h.flood--
+		return &simkit.Step{Op: "rsp", N: 0, B: r.Intn(64)}
+	}
+	h.flood = 0
 	if len(h.selfq) > 0 && (len(ans) == 0 || r.Chance(85, 100)) {
 		return &simkit.Step{Op: "self"}
 	}
@@ -647,9 +661,15 @@ func (h *harness) respond(p *preq, a, b int) {
 	h.x.Logf("  answer #%d %s variant=%d", p.id, p.key, a)
 	lie := func(name string) {
 		h.x.Fault(name)
-		if mine && (p.kind == kAncestor || p.kind == kHashByNo) {
-			s.finderHonest = false
+		if mine {
+			s.lied = true
+			if p.kind == kAncestor || p.kind == kHashByNo {
+				s.finderHonest = false
+			}
 		}
+	}
+	if mine && a != 0 && ((p.kind == kHashes && a >= 3) || (p.kind == kChunks && a >= 7)) {
+		s.lied = true // a hash list that is not a chain / a block that is not what its identifier says
 	}
 	if h.stale(p) {
 		h.x.Probe("stale-response-delivered")
@@ -784,7 +804,11 @@ func (h *harness) respond(p *preq, a, b int) {
 		}
 		if !mine {
 			h.x.Probe("addblock-answer-outside-its-session")
-		} else if err == nil {
+		}
+		// the chain service confirmed a block with this identifier and height; it does not matter to
+		// the running session whether the request came from it or from an earlier session (AddBlockRsp
+		// carries no sequence), nor which copy of the block the chain service stored
+		if err == nil && s != nil && !s.ended && s.last != nil && bytes.Equal(s.last.GetHash(), m.Block.GetHash()) && s.last.BlockNo() == m.Block.BlockNo() {
 			s.lastRspOK = m.Block.BlockNo()
 		}
 		h.x.Logf("  chain: AddBlock %s -> %s, best=%s", h.blockStr(m.Block), errStr(err), h.blockStr(h.local.best()))
@@ -1011,6 +1035,9 @@ func (h *harness) runDown(what string) bool {
 		}
 		if h.now() > deadline {
 			sig, d := "session-never-ends-"+h.stuckKind(), "the session is still running ("+h.stuckDetail()+")"
+			if h.cur != nil && !h.cur.ended && h.cur.lied && (sig == "session-never-ends-connect-queue-gap" || sig == "session-never-ends-connect-queue-behind") {
+				sig += "-by-lying-peer"
+			}
 			if busy {
 				h.mu.Lock()
 				cm := h.curMsg
